@@ -72,6 +72,14 @@ CLAIMED["C15"] = dict(level="model_checking", technique="TLC enumerates the text
 CLAIMED["C07"] = dict(level="model_checking", technique="TLA+ state machine of the reader's position bookkeeping (Scanner.tla) model-checked over all byte-class strings; responses of TLC-enumerated cases in 5 layouts recorded and judged by the TLA+ predicate Envelope!WellFormed (EnvelopeJudge.tla)",
                       note="Trusted: TLC, the lexeme splitter and skeleton extraction of the harness, encoding/json as the standard JSON parser. Columns are only bounded, not exact.", design="DESIGN.md §6 C07",
                       text="Scanner.tla: every stamped field position lies on the line of the token's first byte (exhaustive to length 6/8 over 5 byte classes); every recorded response is a well-formed envelope (keys, errors, message, path kinds, positive locations on the line of the offending key's lexeme, null/absent data when refused) and serialises to valid JSON that decodes to the same structure in all three indent modes")
+CLAIMED["C12"] = dict(level="model_checking", design="DESIGN.md §6 C12",
+    technique="TLA+ labelled-step model of the lazy reflection binding (LazyBind.tla): all interleavings of 2-3 requests model-checked (NoRace, deadlock, WriteOnce, isolation against the alone outcome); each mix and a 2/16/64-goroutine cold-root stress run free under the Go race detector with responses compared to the request run alone; race reports mapped to model labels; access logs with really-held locksets judged by LazyBindTrace.tla",
+    text="every interleaving of 2 (thorough: 3) requests on a cold root in three binding worlds satisfies NoRace/NoDeadlock/WriteOnce/Isolated in the model; on the real code every mix and a cold-root stress with 2/16/64 goroutines runs under the race detector with each response equal to its alone baseline, and every logged access happens under the lockset the model prescribes",
+    note="Trusted: TLC, the Go race detector (dynamic: absence of a report is evidence for the explored schedules only), TryLock based observation of held locks at the verif points. The gated replay of TLC interleavings planned in Part I was not built.")
+CLAIMED["C18"] = dict(level="model_checking", design="DESIGN.md §6 C18",
+    technique="token/character level TLA+ model of the SDL and JSON value writers and of the value reader plus a JSON grammar (ValueText.tla), checked by TLC over enumerated value families x 12 modes; every case replayed on the real writers/reader and encoding/json; random larger values recorded and judged by ValueTextJudge.tla",
+    text="for every enumerated value tree (leaves over named integer/float points, strings over a 114-character alphabet, symbols, variables; empty and adjacent containers, depth <= 3) x indent {<0, 0, >0} x SDL/JSON x Sort: the real text equals the modelled text, reads back to the prescribed value through ParseValueString/ParseValue, and the JSON form is accepted by encoding/json and decodes to the same structure",
+    note="Trusted: TLC, the harness' lexical splitter, encoding/json. Numbers are named points; map keys never hold invalid UTF-8 or NUL; harmless layout differences are reported as notes.")
 
 NOT_YET = {
 }
